@@ -17,6 +17,14 @@ Round 3 additions (nothing older was changed or removed):
   Function object), `C18_attrs_bodies` (GRAPH / GRAPHS / reference attributes read branch by branch).
 Still hypotheses without a necessity theorem: consistent `.graph` back pointers on nested graphs, scoping of
 uses by owner (`scopedGB`).
+
+Follow-up round (nothing older changed): `C18_clone_succeeds` (the clone stage returns on a covered region of a
+sorted, well scoped source: the converse of `C18_raises_of_uncovered`), `C18_extract_succeeds_iff` (`extract`
+returns EXACTLY when the arguments pass, the first output has a graph, every required value is covered and every
+required node is listed), `C18_extract_owned` (`extractO`, the pipeline with the ownership checks of the clone's
+`Graph(...)` constructors — boundary values of a view that a nested graph lists — against `extract`),
+`C18_clone_stage_C13` / `C18_extract_clone_C13` (acceptance by this model's clone stage implies acceptance by C13's
+scope walker on every regular heap representing the view, hence C13's heap-level clone returns a fresh graph).
 -/
 import IrVerif.Lemmas.Extract
 import IrVerif.Lemmas.Implicit
@@ -27,6 +35,8 @@ import IrVerif.Lemmas.ExtractView
 import IrVerif.Lemmas.ExtractNames
 import IrVerif.Lemmas.ExtractAttrs
 import IrVerif.Lemmas.ExtractKernel
+import IrVerif.Lemmas.ExtractSucceeds
+import IrVerif.Lemmas.ExtractC13
 import IrVerif.Props.C13
 set_option linter.unusedSimpArgs false
 namespace IrVerif.Extract
@@ -1660,5 +1670,490 @@ theorem C18_extract_eval_needs_scope :
     have := h 4 (by decide)
     revert this
     decide
+
+/-! ## the clone stage succeeds: the converse of `C18_raises_of_uncovered` (follow-up round) -/
+
+/-- **C18_clone_succeeds**: the clone of the view built from a successful region search returns as soon as every
+    required value that no node produces is one of the view's initializers.  Hypotheses: the source list is
+    single assignment, topologically sorted with consistent `producer()` pointers (`SourceOK`), and what the
+    lexical scoping lets a kept node read is what the code collects for it (`CapturesCover`: closed, well scoped
+    nested graphs with consistent back pointers; this also says that every nested graph is sorted, a use
+    before its definition being a free variable that the graph defines). -/
+theorem C18_clone_succeeds {W : World} {fn : Bool} {g I O : List VId} {p : GId} {ns : List NId}
+    {ws inits : List VId} (h : findSubgraph W fn g I O p = .ok (ns, ws))
+    (hS : SourceOK W p g)
+    (hcap : ∀ n, n ∈ ns → CapturesCover W p n)
+    (hcov : ∀ u, Reach W p I O u → W.prod u = none → u ∈ inits) :
+    ∃ m', cloneG [] (.mk 0 I inits O (ns.map W.nodeD)) = .ok m' := by
+  have hord := C18_order h hS.nodup
+  have hkeep : ∀ n, decide (n ∈ ns) = true ↔ NeedN W p I O n := by
+    intro n; rw [decide_eq_true_eq]; exact C18_nodes_exact h n
+  have hgoodI : ∀ u, (u ∈ I ∨ Reach W p I O u) →
+      u ∈ [] ++ I ++ inits ∨ ∃ k, decide (k ∈ ns) = true ∧ k ∈ g ∧ u ∈ (W.nodeD k).outputs := by
+    intro u hu
+    rcases hu with hu | hu
+    · left; simp [hu]
+    · cases hp : W.prod u with
+      | none => left; have := hcov u hu hp; simp [this]
+      | some k =>
+        right
+        have hk : k ∈ ns := (C18_nodes_exact h k).mpr ⟨u, hu, hp⟩
+        exact ⟨k, by simpa using hk, hord.2.subset hk, hS.outProd u k hp⟩
+  obtain ⟨m1, h1, hsub, hout⟩ := cloneNs_filter_ok (W := W) (p := p) (fun n => decide (n ∈ ns))
+    (fun u => u ∈ I ∨ Reach W p I O u) g ([] ++ I ++ inits) hS.sorted
+    (fun n _ hk => hcap n (by simpa using hk))
+    (by
+      intro n _ hk u hN
+      obtain ⟨v, hr, hpv⟩ := (hkeep n).mp hk
+      by_cases hI : u ∈ I
+      · exact Or.inl hI
+      · exact Or.inr (Reach.step hr hpv hN hI))
+    hgoodI
+  rw [← hord.1] at h1
+  rw [cloneG, h1]
+  simp only []
+  have hall : O.all (fun v => m1.contains v) = true := by
+    rw [List.all_eq_true]
+    intro o ho
+    simp only [List.contains_eq_mem, decide_eq_true_eq]
+    have hgo : o ∈ I ∨ Reach W p I O o := by
+      by_cases hoI : o ∈ I
+      · exact Or.inl hoI
+      · exact Or.inr (Reach.out ho hoI)
+    rcases hgoodI o hgo with h' | ⟨k, hkk, hkg, hko⟩
+    · exact hsub o h'
+    · exact hout k hkg hkk o hko
+  rw [if_pos hall]
+  exact ⟨m1, rfl⟩
+
+/-- every required value is covered: a required value (an uncut output, an input of a required node, a value
+    captured at any depth by a nested graph of a required node; boundary inputs cut the search) that no node
+    produces is an initializer -/
+def Covered (W : World) (p : GId) (I O : List VId) : Prop :=
+  ∀ u, Reach W p I O u → W.prod u = none → W.isInit u = true
+
+/-- the hypotheses of `C18_extract_succeeds_iff` for a region of graph `p` (all decidable: `sourceOKB`,
+    `bodiesOKB`, `scopeB`, `initNamedB`, `initNamesB`; evaluated by the driver on every generated cut) -/
+structure RegionHyp (W : World) (T : Target) (p : GId) (I O : List VId) : Prop where
+  source : SourceOK W p T.nodes
+  cap : ∀ n, n ∈ T.nodes → CapturesCover W p n
+  scope : ∀ u, Reach W p I O u → ∀ n, NeedN W p I O n → ∀ b, b ∈ (W.nodeD n).bodies → ¬ DefInG b u
+  named : ∀ u, W.isInit u = true → (W.val u).name ≠ ""
+  names : ∀ u u', W.isInit u = true → W.isInit u' = true → (W.val u).name = (W.val u').name → u = u'
+
+theorem extract_ok_args {W : World} {T : Target} {ins outs : List Arg} {view : View}
+    (h : extract W T ins outs = .ok view) :
+    checkArgs W T (valueMapping W T) (ins ++ outs) = .ok () ∧
+    view.inputs = ins.map (resolveArg (valueMapping W T)) ∧
+    view.outputs = outs.map (resolveArg (valueMapping W T)) := by
+  unfold extract at h
+  simp only [] at h
+  split at h
+  · cases h
+  · rename_i hok
+    split at h
+    · cases h
+    · split at h
+      · cases h
+      · split at h
+        · cases h
+        · split at h
+          · cases h
+          · split at h
+            · cases h
+            · cases h
+              exact ⟨hok, rfl, rfl⟩
+
+/-- **C18_extract_succeeds_iff**: `extract` returns a graph EXACTLY when the arguments pass the checks, there is
+    a first output with an owning graph `p`, every required value is covered (`Covered`: what no boundary
+    input cuts off and no node produces is an initializer) and every required node is a node of the
+    graph-like object.  Together with `C18_by_name_missing` (argument errors) and `C18_raises_iff` (which of
+    "not bounded" / KeyError the region search raises) this is the full outcome table of `extract`; in
+    particular a bounded, well scoped, sorted region makes the clone stage succeed (`C18_clone_succeeds`),
+    which was differential only before.  Hypotheses: `RegionHyp` for the graph of the first output. -/
+theorem C18_extract_succeeds_iff (W : World) (T : Target) (ins outs : List Arg)
+    (hyp : ∀ o rest p, outs.map (resolveArg (valueMapping W T)) = o :: rest → W.graphOf o = some p →
+      RegionHyp W T p (ins.map (resolveArg (valueMapping W T))) (outs.map (resolveArg (valueMapping W T)))) :
+    (∃ view, extract W T ins outs = .ok view) ↔
+      checkArgs W T (valueMapping W T) (ins ++ outs) = .ok () ∧
+      ∃ o rest p, outs.map (resolveArg (valueMapping W T)) = o :: rest ∧ W.graphOf o = some p ∧
+        Covered W p (ins.map (resolveArg (valueMapping W T))) (outs.map (resolveArg (valueMapping W T))) ∧
+        ∀ n, NeedN W p (ins.map (resolveArg (valueMapping W T))) (outs.map (resolveArg (valueMapping W T))) n →
+          n ∈ T.nodes := by
+  constructor
+  · rintro ⟨view, h⟩
+    obtain ⟨hargs, hI, hO⟩ := extract_ok_args h
+    obtain ⟨p, inited, m', ⟨o, rest, hout, hp⟩, hfind, hsub, hclone, im, him, hinits⟩ := extract_ok h
+    refine ⟨hargs, o, rest, p, by rw [← hO]; exact hout, hp, ?_, ?_⟩
+    · have H := hyp o rest p (by rw [← hO]; exact hout) hp
+      rw [← hI, ← hO] at H ⊢
+      have hnodes : ∀ n, n ∈ view.nodes → n ∈ T.nodes :=
+        fun n hn => (C18_order hfind H.source.nodup).2.subset hn
+      exact C18_cover_of_clone hfind
+        (fun v hv => ((C18_inits hfind v).mp (hsub v hv)).1) hclone
+        (fun n hn => H.source.prodOut n (hnodes n hn))
+        (fun u hu n hn => H.scope u hu n ((C18_nodes_exact hfind n).mp hn))
+    · rw [← hI, ← hO]
+      exact ((C18_raises_iff W _ T.nodes _ _ p).2.2.mp ⟨_, hfind⟩).2
+  · rintro ⟨hargs, o, rest, p, hout, hp, hcov, hneed⟩
+    have H := hyp o rest p hout hp
+    have hnU : ¬ Uncovered W p (ins.map (resolveArg (valueMapping W T)))
+        (outs.map (resolveArg (valueMapping W T))) := by
+      rintro ⟨n, u, ⟨v, hr, hpv⟩, hun, hI, hinit, hpu⟩
+      have := hcov u (Reach.step hr hpv (Or.inl hun) hI) hpu
+      rw [hinit] at this
+      cases this
+    obtain ⟨⟨ns, ws⟩, hfind⟩ := (C18_raises_iff W (T.kind == Kind.function) T.nodes _ _ p).2.2.mpr ⟨hnU, hneed⟩
+    have hinitOK : ∀ v, v ∈ ws → W.isInit v = true := fun v hv => ((C18_inits hfind v).mp hv).1
+    obtain ⟨im, him⟩ := viewInits_ok (W := W) ws [] (fun v hv => H.named v (hinitOK v hv))
+    have hcomplete := (viewInits_complete ws [] im him (by intro kv hkv; cases hkv)
+      (by
+        intro u u' hu hu' hn
+        have h1 : u ∈ ws := hu.resolve_right (by simp)
+        have h2 : u' ∈ ws := hu'.resolve_right (by simp)
+        exact H.names u u' (hinitOK u h1) (hinitOK u' h2) hn)).2
+    have hnodes : ∀ n, n ∈ ns → n ∈ T.nodes := fun n hn => (C18_order hfind H.source.nodup).2.subset hn
+    obtain ⟨m', hclone⟩ := C18_clone_succeeds (inits := im.map (·.2)) hfind H.source
+      (fun n hn => H.cap n (hnodes n hn))
+      (fun u hu hpu => hcomplete u ((C18_inits hfind u).mpr ⟨hcov u hu hpu, Or.inr hu⟩))
+    refine ⟨{ inputs := ins.map (resolveArg (valueMapping W T)),
+              outputs := outs.map (resolveArg (valueMapping W T)), nodes := ns, inits := im.map (·.2) }, ?_⟩
+    unfold extract
+    simp only []
+    rw [hargs]
+    simp only []
+    rw [hout]
+    simp only [hp]
+    rw [← hout, hfind]
+    simp only []
+    rw [him]
+    simp only []
+    rw [hclone]
+
+
+/-! ## the ownership checks of the `Graph(...)` constructors in the clone stage (follow-up round) -/
+
+theorem extractO_rel (W : World) (T : Target) (ins outs : List Arg) :
+    match extractO W T ins outs with
+    | .ok v => extract W T ins outs = .ok v ∧
+        ∃ s, cloneGO {} (.mk 0 v.inputs v.inits v.outputs (v.nodes.map W.nodeD)) = .ok s
+    | .error e => (e = .cloneOwned ∧ ∀ view, extract W T ins outs = .ok view →
+          ¬ ∃ s, cloneGO {} (.mk 0 view.inputs view.inits view.outputs (view.nodes.map W.nodeD)) = .ok s) ∨
+        extract W T ins outs = .error e := by
+  unfold extractO extract
+  simp only []
+  cases hc : checkArgs W T (valueMapping W T) (ins ++ outs) with
+  | error e => simp
+  | ok u =>
+    cases u
+    simp only []
+    cases ho : outs.map (resolveArg (valueMapping W T)) with
+    | nil => simp
+    | cons o0 rest =>
+      simp only []
+      cases hg : W.graphOf o0 with
+      | none => simp
+      | some parent =>
+        simp only []
+        cases hf : findSubgraph W (T.kind == Kind.function) T.nodes (ins.map (resolveArg (valueMapping W T)))
+            (o0 :: rest) parent with
+        | error e => simp
+        | ok r =>
+          obtain ⟨nodes, inited⟩ := r
+          simp only []
+          cases hv : viewInits W inited [] with
+          | error e => simp
+          | ok im =>
+            simp only []
+            have hrel := cloneGO_rel (.mk 0 (ins.map (resolveArg (valueMapping W T))) (im.map (·.2)) (o0 :: rest)
+              (nodes.map W.nodeD)) {}
+            cases hcl : cloneGO {} (.mk 0 (ins.map (resolveArg (valueMapping W T))) (im.map (·.2)) (o0 :: rest)
+                (nodes.map W.nodeD)) with
+            | error e =>
+              rw [hcl] at hrel
+              simp only [OwnRel] at hrel
+              simp only []
+              rcases hrel with hrel | hrel
+              · left
+                refine ⟨hrel, ?_⟩
+                intro view hview
+                rintro ⟨s, hs⟩
+                split at hview
+                · cases hview
+                · cases hview
+                  simp only [] at hs
+                  rw [hcl] at hs
+                  cases hs
+              · right
+                simp only [hrel]
+            | ok s =>
+              rw [hcl] at hrel
+              simp only [OwnRel] at hrel
+              simp only [hrel]
+              exact ⟨trivial, s, hcl⟩
+
+/-- the ownership checks of the clone's `Graph(...)` constructors pass on the view `extract` builds -/
+def OwnPass (W : World) (T : Target) (ins outs : List Arg) : Prop :=
+  ∀ view, extract W T ins outs = .ok view →
+    ∃ s, cloneGO {} (.mk 0 view.inputs view.inits view.outputs (view.nodes.map W.nodeD)) = .ok s
+
+/-- **C18_extract_owned**: `extractO` — the pipeline with the ownership checks that the `Graph(...)` constructor
+    performs on the clones (a value listed by two graphs of the clone, e.g. the input of a nested graph given
+    as boundary input of a view; an input or initializer of a nested graph that an earlier node produces) —
+    against `extract`, the pipeline every other theorem is about: whenever `extractO` returns, `extract` returns
+    the same view (so every `C18_*` theorem about a returned view holds for `extractO`); `extractO` returns
+    exactly when `extract` returns and the ownership checks pass; and when `extractO` raises anything but the
+    ownership error, `extract` raises the same error. -/
+theorem C18_extract_owned (W : World) (T : Target) (ins outs : List Arg) :
+    (∀ view, extractO W T ins outs = .ok view ↔ (extract W T ins outs = .ok view ∧ OwnPass W T ins outs)) ∧
+    (∀ e, extractO W T ins outs = .error e → e = .cloneOwned ∨ extract W T ins outs = .error e) := by
+  have h := extractO_rel W T ins outs
+  constructor
+  · intro view
+    constructor
+    · intro hv
+      rw [hv] at h
+      simp only [] at h
+      refine ⟨h.1, ?_⟩
+      intro view' hv'
+      rw [h.1] at hv'
+      cases hv'
+      exact h.2
+    · rintro ⟨hv, hown⟩
+      obtain ⟨s, hs⟩ := hown view hv
+      cases hO : extractO W T ins outs with
+      | ok v' =>
+        rw [hO] at h
+        simp only [] at h
+        rw [hv] at h
+        cases h.1
+        rfl
+      | error e =>
+        exfalso
+        rw [hO] at h
+        simp only [] at h
+        rcases h with ⟨_, h⟩ | h
+        · exact h view hv ⟨s, hs⟩
+        · rw [hv] at h; cases h
+  · intro e he
+    rw [he] at h
+    simp only [] at h
+    rcases h with ⟨h, _⟩ | h
+    · exact Or.inl h
+    · exact Or.inr h
+
+
+/-! decidable forms (what the driver evaluates on every generated cut) -/
+
+theorem covered_iff_B {W : World} {fn : Bool} {I O : List VId} {p : GId} :
+    coveredB W fn I O p = true ↔ Covered W p I O := by
+  unfold coveredB Covered
+  rw [List.all_eq_true]
+  constructor
+  · intro h u hu hp
+    have := h u ((C18_values_exact W fn I O p u).mpr (Or.inr hu))
+    simp only [Bool.or_eq_true, List.contains_eq_mem, decide_eq_true_eq, hp, Option.isSome_none,
+      Bool.false_eq_true, or_false] at this
+    rcases this with h' | h'
+    · exact absurd h' hu.not_mem
+    · exact h'
+  · intro h u hu
+    simp only [Bool.or_eq_true, List.contains_eq_mem, decide_eq_true_eq]
+    rcases (C18_values_exact W fn I O p u).mp hu with h' | h'
+    · exact Or.inl (Or.inl h')
+    · cases hp : W.prod u with
+      | none => exact Or.inr (h u h' hp)
+      | some k => exact Or.inl (Or.inr rfl)
+
+theorem neededIn_iff_B {W : World} {fn : Bool} {g I O : List VId} {p : GId} :
+    neededInB W fn g I O p = true ↔ ∀ n, NeedN W p I O n → n ∈ g := by
+  unfold neededInB
+  rw [List.all_eq_true]
+  constructor
+  · intro h n hn
+    simpa using h n ((walkFinal_nodes W fn I O p n).mpr hn)
+  · intro h n hn
+    simpa using h n ((walkFinal_nodes W fn I O p n).mp hn)
+
+theorem regionHyp_of_B {W : World} {T : Target} {p : GId} {I O : List VId}
+    (h : regionHypB W T p I O = true) : RegionHyp W T p I O := by
+  unfold regionHypB at h
+  simp only [Bool.and_eq_true] at h
+  obtain ⟨⟨⟨⟨h1, h2⟩, h3⟩, h4⟩, h5⟩ := h
+  refine ⟨(sourceOK_of_B h1).1, ?_, ?_, ?_, initNames_of_B h5⟩
+  · intro n hn
+    exact capturesCover_of_bodiesOK
+      (bodiesOKB_sound (List.all_eq_true.mp h2 n hn) (fun v hv => graphOf_out_of_range hv))
+  · intro u hu n hn
+    exact scope_of_B h3 u hu n ((walkFinal_nodes W _ I O p n).mpr hn)
+  · intro u hu hn
+    have hr : u < W.vals.length := by
+      apply Classical.byContradiction; intro hlt
+      rw [isInit_out_of_range (Nat.le_of_not_lt hlt)] at hu; cases hu
+    have := List.all_eq_true.mp h4 u (List.mem_range.mpr hr)
+    simp [hu, hn] at this
+
+
+/-! non-vacuity of the follow-up theorems -/
+
+/-- the hypotheses of `C18_extract_succeeds_iff` hold on the example world, and both outcomes occur: with the
+    boundary input `x` the region is covered and `extract` returns, without it `x` is uncovered and it raises -/
+example : regionHypB exW exT 0 [0] [3] = true ∧ coveredB exW false [0] [3] 0 = true ∧
+    neededInB exW false exT.nodes [0] [3] 0 = true ∧
+    extract exW exT [.obj 0] [.obj 3] = .ok { inputs := [0], outputs := [3], nodes := [0, 1], inits := [1] } := by
+  decide +kernel
+example : regionHypB exW exT 0 [] [3] = true ∧ coveredB exW false [] [3] 0 = false ∧
+    extract exW exT [] [.obj 3] = .error .unbounded := by decide +kernel
+example : RegionHyp exW exT 0 [0] [3] := regionHyp_of_B (by decide +kernel)
+example : ∃ view, extract exW exT [.obj 0] [.obj 3] = .ok view :=
+  (C18_extract_succeeds_iff exW exT [.obj 0] [.obj 3] (by
+    intro o rest p ho hp
+    have : o = 3 ∧ p = 0 := by
+      have h1 : [Arg.obj 3].map (resolveArg (valueMapping exW exT)) = [3] := rfl
+      rw [h1] at ho
+      cases ho
+      have h2 : exW.graphOf 3 = some 0 := by decide
+      rw [h2] at hp
+      cases hp
+      exact ⟨rfl, rfl⟩
+    obtain ⟨rfl, rfl⟩ := this
+    exact regionHyp_of_B (by decide +kernel))).mpr
+    ⟨by decide +kernel, 3, [], 0, rfl, by decide, covered_iff_B.mp (by decide +kernel : coveredB exW false _ _ 0 = true),
+      neededIn_iff_B.mp (by decide +kernel : neededInB exW false _ _ _ 0 = true)⟩
+
+/-- a view whose boundary contains the INPUT `i` of a graph nested in the kept node: the pipeline without the
+    constructor checks returns, the real pipeline raises the ownership error (the nested clone graph already
+    owns the clone of `i` when the outer `Graph(...)` is built); a nested NODE OUTPUT given as input is
+    harmless (the node makes a new clone); the nested input given as OUTPUT raises too -/
+def exOwnW : World :=
+  { vals := [ { name := "x", graph := some 0 }, { name := "i", graph := some 1 },
+              { name := "y", producer := some 1, graph := some 1 },
+              { name := "z", producer := some 0, graph := some 0 } ],
+    nodes := [ .mk [some 0] [3] [.mk 1 [1] [] [2] [.mk [some 0, some 1] [2] []]],
+               .mk [some 0, some 1] [2] [] ] }
+def exOwnT : Target := { kind := .view, gid := none, inputs := [0], inits := [], nodes := [0] }
+
+example : extract exOwnW exOwnT [.obj 0, .obj 1] [.obj 3] =
+      .ok { inputs := [0, 1], outputs := [3], nodes := [0], inits := [] } ∧
+    extractO exOwnW exOwnT [.obj 0, .obj 1] [.obj 3] = .error .cloneOwned ∧
+    extractO exOwnW exOwnT [.obj 0, .obj 2] [.obj 3] =
+      .ok { inputs := [0, 2], outputs := [3], nodes := [0], inits := [] } ∧
+    extractO exOwnW exOwnT [.obj 0] [.obj 3, .obj 1] = .error .cloneOwned ∧
+    extractO exOwnW exOwnT [.obj 0] [.obj 3] = .ok { inputs := [0], outputs := [3], nodes := [0], inits := [] } := by
+  decide +kernel
+example : ¬ OwnPass exOwnW exOwnT [.obj 0, .obj 1] [.obj 3] := by
+  intro h
+  have := ((C18_extract_owned exOwnW exOwnT [.obj 0, .obj 1] [.obj 3]).1
+    { inputs := [0, 1], outputs := [3], nodes := [0], inits := [] }).mpr ⟨by decide +kernel, h⟩
+  rw [show extractO exOwnW exOwnT [.obj 0, .obj 1] [.obj 3] = .error .cloneOwned from by decide +kernel] at this
+  cases this
+
+/-! ## the clone stage against C13's heap-level cloner (follow-up round) -/
+
+/-- **C18_clone_stage_C13** (from C13, `C13_clone_succeeds`): the clone stage of `extract` as this model has it
+    (`cloneGO`: keys of the value map, generations of the clones, ownership) against C13's model of the cloner
+    (heap of cells, `graphClone`) — for EVERY C13 heap `w` and graph cell `gv` that represents the tree `t`
+    (`RepG`: same value ids in the input / initializer / output lists, node cells in order, the graph-valued
+    attributes GRAPH / GRAPHS of a node cell are in order the cells of its bodies, other attributes ignored),
+    that is regular (`RegG`: inputs, initializers and node outputs are value cells with their metadata
+    containers and a non-empty name; initializer names of a graph distinct) and in which no node output is
+    already a key of the value map when its node is cloned (`nrG`; C13's walker makes no claim there: the D153
+    shape), with enough fuel for the nesting depth: if `cloneGO` accepts, C13's scope walker accepts, hence
+    (`C13_clone_succeeds`) the heap-level `GraphView.clone()` RETURNS a graph `g'`, every object `g'` owns is
+    new, every node input of `g'` is a new value and no pre-existing cell changed (`C13_fresh`, `C13_closed`,
+    `C13_clone_pure`).  C13's correspondence ties `graphClone` / `cloneVerdict` to the real cloner. -/
+theorem C18_clone_stage_C13 {w : Clone.World} {t : GraphT} {gv fuel : Nat} {s : CSt}
+    (hrep : RepG w t gv) (hreg : RegG w t) (hfuel : depthG t ≤ fuel) (hnr : nrG [] t)
+    (h : cloneGO {} t = .ok s) :
+    (∃ A, Clone.cloneVerdict fuel false w gv = .ok A) ∧
+    ∃ g' w', Clone.run (Clone.graphClone fuel false gv) w = (.ok g', w') ∧
+      (∀ i, Clone.Owned w' g' i → w.length ≤ i ∧ i < w'.length) ∧
+      (∀ i, Clone.Owned w' g' i → ∀ n, w'[i]? = some (Clone.Cell.node n) →
+          ∀ v, some v ∈ n.inputs → w.length ≤ v ∧ v < w'.length) ∧
+      (∀ (i : Nat) (c : Clone.Cell), w[i]? = some c → w'[i]? = some c) := by
+  have hsim0 : SimSt {} {} := by
+    refine ⟨?_, ?_, ?_, ?_⟩
+    · intro v; constructor <;> (intro hv; cases hv)
+    · intro v hv; cases hv
+    · intro v hv; cases hv
+    · intro v hv; cases hv
+  obtain ⟨A, hA, _, _⟩ := simG w t fuel gv {} s {} hrep hreg hfuel hnr hsim0 h
+  have hv : Clone.cloneVerdict fuel false w gv = .ok A := hA
+  obtain ⟨g', w', hrun⟩ := Clone.C13_clone_succeeds hv
+  refine ⟨⟨A, hv⟩, g', w', hrun, Clone.C13_fresh hrun, ?_, (Clone.C13_clone_pure hrun).1 rfl⟩
+  intro i hi n hn v hvn
+  exact ((Clone.C13_closed hrun i hi).1 n hn).1 rfl v hvn
+
+/-- **C18_extract_clone_C13**: whenever the pipeline returns a view, on every regular C13 heap that represents
+    that view the heap-level clone returns an independent graph (composition of `C18_extract_owned` with
+    `C18_clone_stage_C13`; with `C18_extract_succeeds_iff`: a covered region of a sorted, well scoped source
+    whose boundary no nested graph lists is cloned). -/
+theorem C18_extract_clone_C13 {W : World} {T : Target} {ins outs : List Arg} {view : View}
+    (hx : extractO W T ins outs = .ok view)
+    {w : Clone.World} {gv fuel : Nat}
+    (hrep : RepG w (.mk 0 view.inputs view.inits view.outputs (view.nodes.map W.nodeD)) gv)
+    (hreg : RegG w (.mk 0 view.inputs view.inits view.outputs (view.nodes.map W.nodeD)))
+    (hfuel : depthG (.mk 0 view.inputs view.inits view.outputs (view.nodes.map W.nodeD)) ≤ fuel)
+    (hnr : nrG [] (.mk 0 view.inputs view.inits view.outputs (view.nodes.map W.nodeD))) :
+    ∃ g' w', Clone.run (Clone.graphClone fuel false gv) w = (.ok g', w') ∧
+      (∀ i, Clone.Owned w' g' i → w.length ≤ i ∧ i < w'.length) ∧
+      (∀ (i : Nat) (c : Clone.Cell), w[i]? = some c → w'[i]? = some c) := by
+  have hrel := extractO_rel W T ins outs
+  rw [hx] at hrel
+  obtain ⟨_, s, hs⟩ := hrel
+  obtain ⟨_, g', w', hrun, h1, _, h3⟩ := C18_clone_stage_C13 hrep hreg hfuel hnr hs
+  exact ⟨g', w', hrun, h1, h3⟩
+
+/-! non-vacuity: a C13 heap representing a view with one node that holds a nested graph -/
+
+def exHeap : Clone.World := [
+  .graph { name := some "v", inputs := [3], outputs := [6], nodes := [9], props := 1, mstore := 2, view := true },
+  .dict {}, .dict {},
+  .val { name := some "x", graph := some 0, isIn := true, props := 4, mstore := 5 }, .dict {}, .dict {},
+  .val { name := some "y", producer := some 9, index := some 0, props := 7, mstore := 8 }, .dict {}, .dict {},
+  .node { name := some "n", opType := "Loopy", inputs := [some 3], outputs := [6], attrs := [("body", 12)],
+          props := 10, mstore := 11 }, .dict {}, .dict {},
+  .attr { name := "body", v := .graph 13 },
+  .graph { name := some "b", inputs := [16], outputs := [19], nodes := [22], props := 14, mstore := 15 },
+  .dict {}, .dict {},
+  .val { name := some "i", graph := some 13, isIn := true, props := 17, mstore := 18 }, .dict {}, .dict {},
+  .val { name := some "j", producer := some 22, index := some 0, graph := some 13, isOut := true,
+         props := 20, mstore := 21 }, .dict {}, .dict {},
+  .node { name := some "m", opType := "Add", inputs := [some 3, some 16], outputs := [19], graph := some 13,
+          props := 23, mstore := 24 }, .dict {}, .dict {} ]
+
+def exTree : GraphT :=
+  .mk 0 [3] [] [6] [.mk [some 3] [6] [.mk 1 [16] [] [19] [.mk [some 3, some 16] [19] []]]]
+
+theorem exHeap_rep : RepG exHeap exTree 0 := by
+  simp [RepG, RepNs, RepN, RepGs, exTree, exHeap, attrGraphs, Clone.wDict, Clone.wCell, Clone.WRes.bind]
+
+
+theorem exHeap_reg : RegG exHeap exTree := by
+  simp [RegG, RegNs, RegN, RegGs, exTree, RegVal, exHeap, Clone.wOptShape, Clone.wOptType, Clone.wDict, Clone.wCell,
+    Clone.WRes.bind, Clone.distinct]
+
+theorem exHeap_nr : nrG [] exTree := by
+  simp [nrG, nrNs, nrN, nrGs, exTree, cloneG, cloneGs, cloneN, cloneNs]
+
+theorem exHeap_clone : ∃ s, cloneGO {} exTree = .ok s := by
+  cases h : cloneGO {} exTree with
+  | ok s => exact ⟨s, rfl⟩
+  | error e =>
+    exfalso
+    have hrel := cloneGO_rel exTree {}
+    rw [h] at hrel
+    have hk : cloneG [] exTree = .ok [3, 16, 19, 6] := by decide +kernel
+    have hm : ({} : CSt).m = [] := rfl
+    rw [hm, hk] at hrel
+    rcases hrel with rfl | hrel
+    · revert h; simp [cloneGO, cloneNsO, cloneNO, cloneGsO, exTree, CSt.cur]
+    · cases hrel
+
+/-- the instance: C13's walker accepts the heap and the heap-level clone returns -/
+example : ∃ g' w', Clone.run (Clone.graphClone 4 false 0) exHeap = (.ok g', w') := by
+  obtain ⟨s, hs⟩ := exHeap_clone
+  obtain ⟨_, g', w', h, _⟩ := C18_clone_stage_C13 (fuel := 4) exHeap_rep exHeap_reg (by decide) exHeap_nr hs
+  exact ⟨g', w', h⟩
 
 end IrVerif.Extract
